@@ -21,24 +21,24 @@ def tier_of(args):
 # --------------------------------------------------------------------------
 # model-checking instances of spec/MC_Sim.tla
 
-FAMILY_TIERS = {"quick": ["A", "W", "B", "V", "D"], "thorough": ["A", "W", "B", "V", "D", "P", "A3"]}
+FAMILY_TIERS = {"quick": ["A", "W", "B", "V", "D", "G"], "thorough": ["A", "W", "B", "V", "D", "G", "P", "A3"]}
 
 # property -> (invariants, action properties, families, needs no crash?)
 MC_PROPS = {
-    "C01": (["I_C01_exec", "I_C01_claim", "I_C01_pool"], ["A_C01"], ["A", "W", "V", "P", "A3"]),
-    "C02": (["I_C02_partition", "I_C02_counts", "I_C02_numprov", "I_End"], ["A_C02"], ["A", "W", "V", "P", "A3"]),
-    "C03": ([], ["A_C03"], ["A", "W", "D", "P", "A3"]),
-    "C04": (["I_End"], ["A_C04"], ["A", "W", "D", "V", "P", "A3"]),
-    "C05": (["I_C05_bound", "I_C05_nocrash"], [], ["A", "W", "B", "P", "A3"]),
+    "C01": (["I_C01_exec", "I_C01_claim", "I_C01_pool"], ["A_C01"], ["A", "W", "V", "P", "A3", "G"]),
+    "C02": (["I_C02_partition", "I_C02_counts", "I_C02_numprov", "I_End"], ["A_C02"], ["A", "W", "V", "P", "A3", "G"]),
+    "C03": ([], ["A_C03"], ["A", "W", "D", "P", "A3", "G"]),
+    "C04": (["I_End"], ["A_C04"], ["A", "W", "D", "V", "P", "A3", "G"]),
+    "C05": (["I_C05_bound", "I_C05_nocrash"], [], ["A", "W", "B", "P", "A3", "G"]),
     "C06": ([], ["A_C06"], ["W", "A", "D"]),
     "C07": (["I_C07_bounds", "I_C07_conserved", "I_End"], ["A_C07"], ["A", "B", "W", "A3"]),
-    "C08": (["I_C08_limits"], ["A_C08", "A_C08b", "A_C08c"], ["A", "B", "P", "A3"]),
-    "C09": (["I_C09_count", "I_C09_prompt"], ["A_C09"], ["A", "P", "A3"]),
-    "C12": (["I_End"], ["A_C12"], ["A", "W", "B", "A3"]),
-    "C13": (["I_C13_end", "I_C13_nodup"], [], ["A", "B", "P", "A3"]),
+    "C08": (["I_C08_limits"], ["A_C08", "A_C08b", "A_C08c"], ["A", "B", "P", "A3", "G"]),
+    "C09": (["I_C09_count", "I_C09_prompt"], ["A_C09"], ["A", "P", "A3", "G"]),
+    "C12": (["I_End"], ["A_C12"], ["A", "W", "B", "A3", "G"]),
+    "C13": (["I_C13_end", "I_C13_nodup"], [], ["A", "B", "P", "A3", "G"]),
     "C15": (["I_C15_reported"], ["A_C15"], ["W"]),
-    "C17": ([], ["A_C17"], ["W"]),
-    "C19": (["I_C19_truth"], [], ["A", "W", "B", "V", "A3"]),
+    "C17": ([], ["A_C17"], ["W", "G"]),
+    "C19": (["I_C19_truth"], [], ["A", "W", "B", "V", "A3", "G"]),
 }
 
 
@@ -80,7 +80,7 @@ def run_mc(pid, tier, out):
     if pid == "C05":
         # cross-check of the safety form: termination as a liveness property
         # under weak fairness, no state constraint
-        for fam in (["B", "W"] if tier == "quick" else ["B", "W", "A"]):
+        for fam in (["B", "W"] if tier == "quick" else ["B", "W", "A", "G"]):
             cfgt = ("SPECIFICATION FairSpec\nCONSTANT Configs <- MCConfigs\nCONSTANT FamilyName = \"%s\"\n"
                     "PROPERTY Terminates\nCHECK_DEADLOCK FALSE\n" % fam)
             r = core.run_tlc("MC_Sim", cfgt, heap="12g", workers=8)
